@@ -27,7 +27,7 @@ ASSUMPTIONS = [
 NSHARDS = {"quick": 16, "thorough": 16}
 N_CASES = {"quick": 1200, "thorough": 40000}   # per shard
 REQUIRE = {"outcome:oom": 200, "outcome:ok": 200, "zero_tick_operators": 50, "multi_segment_operators": 100,
-           "compared_ticks": 20000, "ambiguous_cases_resolved": 5, "retried_containers": 300, "retries_succeeded": 100}
+           "compared_ticks": 20000, "ambiguous_cases_resolved": 5, "retried_containers": 300, "retries_succeeded": 100, "neighbour_cases:cancel": 300, "neighbour_cases:random": 100}
 for _l in LAWS:
     REQUIRE["law:" + _l] = 50
 
@@ -123,6 +123,50 @@ def retry_case(rng):
     return c
 
 
+def neighbour_case(rng):
+    """Two or three containers in one pool: the behaviour of a container must not depend on its
+    neighbours.  Directed sub-class 'cancel': in the tick in which the victim's growing memory
+    first exceeds its allocation, a neighbour drops by exactly the same amount (a fixed-memory
+    segment followed by a smaller one), so the pool's total does not move in that tick."""
+    tps = rng.choice([1, 2, 4, 5, 10, 20])
+    g = 20.0 / tps                       # growth per tick during I/O (an integer for these rates)
+    n = rng.randint(1, 6)                # the victim exceeds its allocation in tick n+1
+    kind = rng.choice(["cancel", "cancel", "near-cancel", "random"])
+    pipes, asg = [], []
+    # victim: one growing operator, allocation strictly between n*g and (n+1)*g
+    vread = g * (n + rng.randint(2, 5))
+    vram = g * (n + rng.choice([0.25, 0.5, 0.75]))
+    pipes.append({"pid": "victim", "prio": "BATCH_PIPELINE", "ops": [
+        {"parents": [], "segs": [{"cpu": rng.randint(0, 3) / tps, "law": "const", "mem": None, "read": vread}]}]})
+    asg.append({"pool": 0, "cpu": 1, "ram": vram, "ops": [[0, 0]]})
+    if kind in ("cancel", "near-cancel"):
+        m = g * rng.randint(2, 6)
+        drop = g if kind == "cancel" else g * rng.choice([0.5, 2.0])
+        two_ops = rng.random() < 0.5
+        seg1 = {"cpu": n / tps, "law": "const", "mem": m, "read": 0.0}
+        seg2 = {"cpu": rng.randint(1, 4) / tps, "law": "const", "mem": max(0.0, m - drop), "read": 0.0}
+        ops = ([{"parents": [], "segs": [seg1]}, {"parents": [0], "segs": [seg2]}] if two_ops
+               else [{"parents": [], "segs": [seg1, seg2]}])
+        pipes.append({"pid": "neighbour", "prio": "BATCH_PIPELINE", "ops": ops})
+        asg.append({"pool": 0, "cpu": 1, "ram": m * 2, "ops": [[1, i] for i in range(len(ops))]})
+    else:
+        for j in range(rng.randint(1, 2)):
+            sp = gen.simple_pipeline(rng, f"n{j}", tps, nops=rng.choice([1, 2, 3]), shape="chain", mode="safe", cpus_hint=1,
+                                     mem_ref=g * rng.choice([1, 3]), maxn=5)
+            pipes.append(sp)
+            asg.append({"pool": 0, "cpu": 1, "ram": max(gen.ops_peak(sp["ops"]) * rng.choice([0.6, 1.0, 1.5]), 0.01),
+                        "ops": [[len(pipes) - 1, i] for i in range(len(sp["ops"]))]})
+    if rng.random() < 0.5:
+        pipes.reverse()
+        for a in asg:
+            a["ops"] = [[len(pipes) - 1 - pi, oi] for pi, oi in a["ops"]]
+        asg.reverse()
+    total = sum(a["ram"] for a in asg)
+    return {"kind": "neighbours", "world": {"pools": 1, "cpus": 8, "ram": total * rng.choice([1.0, 2.0]), "tps": tps, "multi": True,
+                                            "overcommit": False},
+            "pipelines": pipes, "steps": [{"sus": [], "asg": asg}], "drain": 400, "_neighbour_class": kind}
+
+
 class RetryDriver:
     def __init__(self, case):
         self.first = case["steps"][0]
@@ -155,6 +199,8 @@ def cases(tier, seed, shard, nshards):
         yield make_case(rng, i)
         if i % 6 == 0:
             yield retry_case(rng)
+        if i % 5 == 0:
+            yield neighbour_case(rng)
 
 
 def run_case(case, mon):
@@ -200,5 +246,7 @@ def run_case(case, mon):
         for s in o["segs"]:
             mon.count("law:" + s["law"])
     mon.count("alloc_class:" + case.get("_alloc_class", "directed"))
+    if case.get("kind") == "neighbours":
+        mon.count("neighbour_cases:" + case["_neighbour_class"])
     for p in mine[:3]:
         mon.fail(p.kind, p.msg, step=p.step, tags=list(p.tags))
